@@ -104,6 +104,14 @@ def one_case(arg):
             ("git -C subdir", d, [G.REAL_GIT, "-C", "repo/sub", "sizer"] + argv, {"PATH": bindir + ":/usr/bin:/bin"}),
             ("symlinked-path", link, [sz] + argv, {}),
         ]
+        # a symlink whose target has a different parent than the link; the shell's logical $PWD is the link path
+        elsewhere = os.path.join(d, "elsewhere", "x", "y")
+        os.makedirs(os.path.dirname(elsewhere))
+        os.symlink(sub, elsewhere)          # elsewhere/x/y -> repo/sub/deeper
+        modes.append(("symlinked-cwd+relative-GIT_DIR-with-dotdot", elsewhere, [sz] + argv,
+                      {"PWD": elsewhere, "GIT_DIR": "../../.git"}))
+        modes.append(("symlinked-cwd-logical-PWD", elsewhere, [sz] + argv, {"PWD": elsewhere}))
+        # a decoy repository where the lexically joined path would point
         gf = os.path.join(d, "gitfile-wt")
         os.makedirs(os.path.join(gf, "inner"))
         with open(os.path.join(gf, ".git"), "w") as f:
